@@ -1,6 +1,6 @@
 (* Extract/Driver.v - entry points of the extracted model used by harness/ocaml/modeldrv.ml.
    Thin dispatch only; everything here is computation on the models. *)
-From Adm Require Import Base.Util Codec.IdCodecDefs gen.IdTraitsGen Codec.TimeDefs Heap.Exec gen.PlansGen.
+From Adm Require Import Base.Util Codec.IdCodecDefs gen.IdTraitsGen Codec.TimeDefs Heap.Exec Heap.More gen.PlansGen.
 Local Open Scope N_scope.
 
 Fixpoint assoc_str {A} (k : list N) (l : list (list N * A)) : option A :=
@@ -45,3 +45,5 @@ Definition drv_exec (o : op) (s : state) : state * (value + exn) := exec gen_pla
 Definition drv_elems (s : state) : list (positive * elem) := PM.elements (elems s).
 Definition drv_docs (s : state) : list (positive * doc) := PM.elements (docs s).
 Definition drv_empty : state := empty_state.
+Definition drv_xexec (o : xop) (s : state) : state * (xvalue + exn) := xexec gen_plans o s.
+Definition drv_simple_object_ops := simple_object_ops.
